@@ -29,6 +29,32 @@ func c07TextHex(t string) string {
 	return b.String()
 }
 
+// c07ForceKind, when not negative, is the section kind c07Render uses wherever it applies (directed maps).
+var c07ForceKind = -1
+
+// c07Directed are maps that run before the random ones, each under every section kind and spelling policy:
+// destinations that count up across a byte carry in their last UTF-16 unit (one unit, a surrogate pair, a
+// multi-character text), the last code of a code space, the first supplementary-plane character.
+func c07Directed() [][]c07entry {
+	run := func(code uint32, first []uint16, n int) []c07entry {
+		var es []c07entry
+		for k := 0; k < n; k++ {
+			u := append([]uint16(nil), first...)
+			u[len(u)-1] += uint16(k)
+			es = append(es, c07entry{code + uint32(k), string(utf16.Decode(u))})
+		}
+		return es
+	}
+	return [][]c07entry{
+		run(0x10, []uint16{0xD835, 0xDCFE}, 5), // U+1D4FE.. : the low surrogate passes DCFF
+		run(0x20, []uint16{0x00FD}, 6),         // U+00FD..U+0102
+		run(0x30, []uint16{0x0066, 0x01FE}, 4), // "f" + U+01FE.. : two units, carry in the second
+		run(0x41, []uint16{0x4DFE}, 4),
+		run(0xF8, []uint16{0x0041}, 8), // up to the last one-byte code
+		run(0x01, []uint16{0xD83D, 0xDDFF}, 3),
+	}
+}
+
 // c07Render writes a code->text map as a CMap program under a formatting policy.
 func c07Render(rng *RNG, entries []c07entry, width int, policy int) string {
 	seps := [][2]string{{" ", "\n"}, {" ", "\r\n"}, {" ", "\r"}, {"", ""}, {"  ", " "}, {"\t", "\n\n"}}
@@ -44,6 +70,9 @@ func c07Render(rng *RNG, entries []c07entry, width int, policy int) string {
 			run++
 		}
 		kind := rng.Intn(3) // 0 bfchar, 1 bfrange with offset (when the texts count up), 2 bfrange with array
+		if c07ForceKind >= 0 {
+			kind = c07ForceKind
+		}
 		countsUp := run > 1
 		if countsUp {
 			base := utf16.Encode([]rune(entries[i].text))
@@ -222,6 +251,65 @@ func init() {
 			r.Case(L(I(1), Bool(be), VB(raw)), Bs(got), "utf16-raw", len(raw) >= 4)
 			r.Check(utf8.ValidString(got), "utf8:utf16", "UTF-16 decoding returned invalid UTF-8", L(I(1), Bool(be), VB(raw)))
 		}
+		checkMap := func(rng *RNG, entries []c07entry, width int, policy int) {
+			prog := c07Render(rng, entries, width, policy)
+			cm, err := font.ParseToUnicodeCMap(&core.Stream{Dict: core.Dict{}, Data: []byte(prog)})
+			if err != nil {
+				r.Check(false, "cmap-parse-error", err.Error(), Bs(prog))
+				return
+			}
+			// every code alone, then a string of all codes
+			var all []byte
+			var want strings.Builder
+			okAll := true
+			for _, e := range entries {
+				cb := make([]byte, width)
+				for k := 0; k < width; k++ {
+					cb[width-1-k] = byte(e.code >> (8 * uint(k)))
+				}
+				all = append(all, cb...)
+				want.WriteString(e.text)
+				got := cm.LookupString(cb)
+				if got != e.text {
+					okAll = false
+					r.Check(false, fmt.Sprintf("cmap-lookup:policy%d", policy), fmt.Sprintf("code <%s> decodes to %q, the map says %q", c07Hex(e.code, width), got, e.text), L(I(2), Bs(prog), VB(cb)))
+					break
+				}
+			}
+			if okAll {
+				r.Check(true, "cmap-lookup", "", nil)
+			}
+			gotAll := cm.LookupString(all)
+			cv := L(I(2), Bs(prog), VB(all))
+			r.Case(cv, Bs(gotAll), fmt.Sprintf("cmap:width%d", width), len(entries) >= 5)
+			r.Check(gotAll == want.String(), "cmap-lookup-string", fmt.Sprintf("the string of all codes decodes to %q, the map says %q", gotAll, want.String()), cv)
+			// unmapped and short input still gives valid UTF-8
+			junk := rng.Bytes(rng.Intn(7))
+			gj := cm.LookupString(junk)
+			r.Case(L(I(2), Bs(prog), VB(junk)), Bs(gj), "cmap-junk", false)
+			r.Check(utf8.ValidString(gj), "utf8:cmap", "CMap lookup returned invalid UTF-8", L(I(2), Bs(prog), VB(junk)))
+			// precedence and normal form through the font
+			f := font.NewFont("F1", "Helvetica", "Type1")
+			f.Encoding = "WinAnsiEncoding"
+			f.ToUnicodeCMap = cm
+			gf := f.DecodeString(all)
+			r.Check(gf == norm.NFC.String(want.String()), "precedence", fmt.Sprintf("with a ToUnicode map the font decodes to %q, the map says %q", gf, want.String()), cv)
+		}
+		// (c0) directed maps, from a generator state of their own
+		{
+			drng := NewRNG(0xC07D)
+			for _, es := range c07Directed() {
+				for kind := 0; kind < 3; kind++ {
+					for policy := 0; policy < 6; policy++ {
+						for _, width := range []int{1, 2, 3} {
+							c07ForceKind = kind
+							checkMap(drng, es, width, policy)
+							c07ForceKind = -1
+						}
+					}
+				}
+			}
+		}
 		// (c) CMaps
 		for it := 0; it < n; it++ {
 			width := rng.Range(1, 4)
@@ -271,49 +359,7 @@ func init() {
 			if len(entries) == 0 {
 				continue
 			}
-			policy := rng.Intn(6)
-			prog := c07Render(rng, entries, width, policy)
-			cm, err := font.ParseToUnicodeCMap(&core.Stream{Dict: core.Dict{}, Data: []byte(prog)})
-			if err != nil {
-				r.Check(false, "cmap-parse-error", err.Error(), Bs(prog))
-				continue
-			}
-			// every code alone, then a string of all codes
-			var all []byte
-			var want strings.Builder
-			okAll := true
-			for _, e := range entries {
-				cb := make([]byte, width)
-				for k := 0; k < width; k++ {
-					cb[width-1-k] = byte(e.code >> (8 * uint(k)))
-				}
-				all = append(all, cb...)
-				want.WriteString(e.text)
-				got := cm.LookupString(cb)
-				if got != e.text {
-					okAll = false
-					r.Check(false, fmt.Sprintf("cmap-lookup:policy%d", policy), fmt.Sprintf("code <%s> decodes to %q, the map says %q", c07Hex(e.code, width), got, e.text), L(I(2), Bs(prog), VB(cb)))
-					break
-				}
-			}
-			if okAll {
-				r.Check(true, "cmap-lookup", "", nil)
-			}
-			gotAll := cm.LookupString(all)
-			cv := L(I(2), Bs(prog), VB(all))
-			r.Case(cv, Bs(gotAll), fmt.Sprintf("cmap:width%d", width), len(entries) >= 5)
-			r.Check(gotAll == want.String(), "cmap-lookup-string", fmt.Sprintf("the string of all codes decodes to %q, the map says %q", gotAll, want.String()), cv)
-			// unmapped and short input still gives valid UTF-8
-			junk := rng.Bytes(rng.Intn(7))
-			gj := cm.LookupString(junk)
-			r.Case(L(I(2), Bs(prog), VB(junk)), Bs(gj), "cmap-junk", false)
-			r.Check(utf8.ValidString(gj), "utf8:cmap", "CMap lookup returned invalid UTF-8", L(I(2), Bs(prog), VB(junk)))
-			// precedence and normal form through the font
-			f := font.NewFont("F1", "Helvetica", "Type1")
-			f.Encoding = "WinAnsiEncoding"
-			f.ToUnicodeCMap = cm
-			gf := f.DecodeString(all)
-			r.Check(gf == norm.NFC.String(want.String()), "precedence", fmt.Sprintf("with a ToUnicode map the font decodes to %q, the map says %q", gf, want.String()), cv)
+			checkMap(rng, entries, width, rng.Intn(6))
 		}
 		// (c2) a ToUnicode map also decides strings that happen to begin like a byte-order mark
 		for it := 0; it < 40; it++ {
